@@ -83,7 +83,7 @@ class Execution:
 class Scheduler:
     def __init__(self, choices: list[int] | None = None, expect: Any = None,
                  max_points: int = 20000, max_vtime: float = 3600.0,
-                 lazy: tuple[str, ...] = (), strategy: str = "default") -> None:
+                 lazy: tuple[str, ...] = (), strategy: str = "default", exit_points: bool = False) -> None:
         # strategy "rr": beyond the given prefix, pick the next thread in round-robin order at every
         # point (a second deterministic schedule besides the default "keep running" one)
         self.strategy = strategy
@@ -91,6 +91,9 @@ class Scheduler:
         # lazy: names of spawned threads that only run when nothing else can (a partial-order
         # reduction for scenarios whose oracle never reads what those threads write)
         self.lazy = set(lazy)
+        # exit_points: one more scheduling point per thread between its last operation and its end (matters where
+        # somebody looks at is_alive(): the runner simulations)
+        self.exit_points = exit_points
         self.prefix = list(choices or [])
         self.expect = expect
         self.max_points = max_points
@@ -130,6 +133,9 @@ class Scheduler:
         try:
             if not self.aborting:
                 ts.result = ts.fn()
+                if self.exit_points and not self.aborting:
+                    # the thread has done its last operation but still exists (is_alive() is true): others may run now
+                    self._switch(ts, "exit", None)
         except Abort:
             pass
         except BaseException as e:  # noqa: BLE001 - recorded as an observation
